@@ -1,0 +1,61 @@
+//go:build verif
+
+package dastard
+
+import (
+	"fmt"
+	"time"
+)
+
+// VerifRoach drives one real RoachDevice (NewRoachDevice, samplePacket, readPackets) with the UDP datagrams a
+// test sends to its port, and hands out the per-channel data of the blocks it makes.
+type VerifRoach struct {
+	dev  *RoachDevice
+	next chan *dataBlock
+}
+
+// NewVerifRoach binds the device to host ("127.0.0.1:port") with the given unwrap options.
+func NewVerifRoach(host string, rate float64, opts AbacoUnwrapOptions) (*VerifRoach, error) {
+	dev, err := NewRoachDevice(host, rate)
+	if err != nil {
+		return nil, err
+	}
+	dev.unwrapOpts = opts
+	return &VerifRoach{dev: dev}, nil
+}
+
+// Sample runs the real samplePacket (waits up to 1 s for one datagram, builds the unwrappers).
+func (v *VerifRoach) Sample() error { return v.dev.samplePacket() }
+
+// Start launches the real readPackets goroutine.
+func (v *VerifRoach) Start() {
+	v.next = make(chan *dataBlock, 64)
+	go v.dev.readPackets(v.next)
+}
+
+// NextBlock returns the next block's per-channel samples and first frame index.
+func (v *VerifRoach) NextBlock(timeout time.Duration) (data [][]RawType, first int64, err error) {
+	select {
+	case b := <-v.next:
+		if b == nil {
+			return nil, 0, fmt.Errorf("nil block")
+		}
+		if b.err != nil {
+			return nil, 0, b.err
+		}
+		data = make([][]RawType, len(b.segments))
+		for i := range b.segments {
+			data[i] = append([]RawType(nil), b.segments[i].rawData...)
+			first = int64(b.segments[i].firstFrameIndex)
+		}
+		return data, first, nil
+	case <-time.After(timeout):
+		return nil, 0, fmt.Errorf("no block within %v", timeout)
+	}
+}
+
+// Close closes the socket (the reader goroutine then ends with an error block).
+func (v *VerifRoach) Close() { v.dev.conn.Close() }
+
+// VerifBiasLevel is AbacoUnwrapOptions.calcBiasLevel.
+func VerifBiasLevel(opts AbacoUnwrapOptions) int { return opts.calcBiasLevel() }
